@@ -140,12 +140,13 @@ Section Call.
   Variable T : tables.
   Variable F : facts.
   Variable codec : ser -> xval -> option xval.
+  Variable serr : ser -> xval -> cinfo.
   Variable ctor : text -> list xval -> option (list xval).
   Hypothesis codec_plain : forall s v, plain v = true -> codec s v = Some v.
 
   Lemma run_single : forall Q s k e tbv, single_kind k = true ->
     (is_marshal s && q_marshal_none_kwargs Q = false) ->
-    run Q T F codec ctor s k e tbv = single T F codec ctor s e tbv.
+    run Q T F codec serr ctor s k e tbv = single T F codec serr ctor s e tbv.
   Proof. intros Q s k e tbv Hk Hq. destruct k; simpl in *; try reflexivity; try discriminate. rewrite Hq. reflexivity. Qed.
 
   Lemma with_tb_fields : forall e tbv,
@@ -156,7 +157,7 @@ Section Call.
   Lemma payload_plain : forall s e tbv,
     wf_tables T = true -> f_send_sets_tb F = true ->
     core_list (e_args e) = true -> core_attrs (e_attrs e) = true -> plain tbv = true ->
-    exc_payload T F codec s e tbv =
+    exc_payload T F codec serr s e tbv =
     PExc (XDict (envelope (qname (e_cls e)) (e_args e) (set_attr k_traceback tbv (e_attrs e)))).
   Proof.
     intros s e tbv Hwf Htb Ha Hat Hp.
@@ -176,7 +177,7 @@ Section Call.
     decide T (qname (e_cls e)) true = DMake (qname (e_cls e)) ->
     ctor (qname (e_cls e)) (e_args e) = Some (e_args e) ->
     core_list (e_args e) = true -> core_attrs (e_attrs e) = true -> plain tbv = true ->
-    single T F codec ctor s e tbv =
+    single T F codec serr ctor s e tbv =
     mk 0 (ORaised (qname (e_cls e)) (e_args e) (set_attr k_traceback tbv (e_attrs e))) true
        (negb (releases T F (qname (e_cls e)))).
   Proof.
@@ -196,7 +197,7 @@ Section Call.
     isa (find_class T (qname (e_cls e))) c_StopIteration = false ->
     forallb plain before = true -> forallb nodict before = true ->
     core_list (e_args e) = true -> core_attrs (e_attrs e) = true -> plain tbv = true ->
-    batch Q T F codec ctor s before e tbv =
+    batch Q T F codec serr ctor s before e tbv =
     mk (length before) (ORaised (qname (e_cls e)) (e_args e) (set_attr k_traceback tbv (e_attrs e))) true true.
   Proof.
     intros Q s before e tbv Hwf Htb Hisa Hq Hd Hc Hsi Hpb Hnb Ha Hat Hp.
@@ -221,20 +222,34 @@ Section Call.
     cbn [first_bad until_wrap]. rewrite Hsi. reflexivity.
   Qed.
 
-  (* exc_fallback: serialisation of the exception fails, the class is one that gets a reply *)
+  (* exc_fallback: serialisation of the exception fails with an error the fallback's `except` catches, the
+     class is one that gets a reply *)
   Lemma fallback_single : forall s e tbv,
     f_fallback F = true ->
     (route F (e_cls e) = ReplyKeep \/ route F (e_cls e) = ReplyClose) ->
     codec s (class_to_dict T (if f_send_sets_tb F then with_tb e tbv else e)) = None ->
-    r_out (single T F codec ctor s e tbv) = OFallback (f_fallback_class F) (qname (e_cls e)) (f_fallback_tb F).
+    isa_any (serr s (class_to_dict T (if f_send_sets_tb F then with_tb e tbv else e))) (f_fallback_catch F) = true ->
+    r_out (single T F codec serr ctor s e tbv) = OFallback (f_fallback_class F) (qname (e_cls e)) (f_fallback_tb F).
   Proof.
-    intros s e tbv Hf Hr Hn. unfold single, exc_payload. rewrite Hn, Hf.
+    intros s e tbv Hf Hr Hn Hc. unfold single, exc_payload. rewrite Hn, Hf, Hc.
+    destruct Hr as [Hr|Hr]; rewrite Hr; reflexivity.
+  Qed.
+
+  (* ... and when the `except` does not catch it, nothing is sent at all *)
+  Lemma fallback_missed : forall s e tbv,
+    (route F (e_cls e) = ReplyKeep \/ route F (e_cls e) = ReplyClose) ->
+    codec s (class_to_dict T (if f_send_sets_tb F then with_tb e tbv else e)) = None ->
+    isa_any (serr s (class_to_dict T (if f_send_sets_tb F then with_tb e tbv else e))) (f_fallback_catch F) = false ->
+    r_out (single T F codec serr ctor s e tbv) = OConnLost.
+  Proof.
+    intros s e tbv Hr Hn Hc. unfold single, exc_payload. rewrite Hn, Hc, andb_false_r.
     destruct Hr as [Hr|Hr]; rewrite Hr; reflexivity.
   Qed.
 
   (* proxy_usable_after, single-message kinds: a class routed to reply-and-keep whose arrival does not make the
      client release leaves both ends connected, whatever the content and whatever the constructor does *)
   Hypothesis codec_opaque : forall s v, plain v = false -> codec s v = None.
+  Hypothesis serr_caught : forall s v, isa_any (serr s v) (f_fallback_catch F) = true.
 
   Lemma conn_single : forall s e tbv,
     wf_tables T = true -> f_send_sets_tb F = true -> f_fallback F = true ->
@@ -243,7 +258,7 @@ Section Call.
     releases T F (qname (e_cls e)) = false ->
     releases T F (f_fallback_class F) = false ->
     releases T F c_TypeError = false ->
-    r_conn (single T F codec ctor s e tbv) = conn_ok.
+    r_conn (single T F codec serr ctor s e tbv) = conn_ok.
   Proof.
     intros s e tbv Hwf Htb Hfb Hr Hd Hr1 Hr2 Hr3.
     unfold single. rewrite Hr. unfold exc_payload. rewrite Htb, Hfb.
@@ -254,7 +269,7 @@ Section Call.
     - rewrite (codec_plain s _ Hp).
       destruct (dtc_envelope_any T ctor (qname (e_cls e)) (e_args e) (set_attr k_traceback tbv (e_attrs e)) Hwf Hd)
         as [[a' H]|H]; fold env in H; rewrite H; unfold mk; cbn [r_conn]; [rewrite Hr1|rewrite Hr3]; reflexivity.
-    - rewrite (codec_opaque s _ Hp). unfold mk; cbn [r_conn]. rewrite Hr2. reflexivity.
+    - rewrite (codec_opaque s _ Hp), serr_caught. unfold mk; cbn [andb r_conn]. rewrite Hr2. reflexivity.
   Qed.
 End Call.
 
